@@ -43,123 +43,220 @@ def cind(tag, geno, wv):
 
 
 class Driver:
-    """Runs one history on DEAP, observes, evaluates the oracle, builds the Coq term."""
+    """Runs one history on DEAP, observes, evaluates the oracle, builds the Coq terms."""
 
     def __init__(self, run):
         from deap import base, tools
         self.run = run
         self.base, self.tools = base, tools
-        self.fitclasses = {}
-        self.indclasses = {}
+        self.classes = {}
         self.stats = {"hof_evictions": 0, "pf_removed_2_or_more": 0, "pf_removed_noncontiguous": 0,
-                      "similar_resubmitted_with_other_fitness": 0, "calls_that_raised": 0}
+                      "similar_resubmitted_with_other_fitness": 0, "calls_that_raised": 0,
+                      "reconfigurations": 0, "oracle_restarts_after_direct_op": 0, "feeds_between_archives": 0,
+                      "non_integer_fitness_cases": 0}
 
-    def fitcls(self, w):
-        w = tuple(w)
-        if w not in self.fitclasses:
-            self.fitclasses[w] = type("FitC08_%d" % len(self.fitclasses), (self.base.Fitness,),
-                                      {"weights": tuple(float(x) for x in w)})
-        return self.fitclasses[w]
-
-    def new_ind(self, w, use_creator=False):
-        w = tuple(w)
-        key = (w, use_creator)
-        if key not in self.indclasses:
-            if use_creator:
-                # the usual way DEAP users build individuals: creator.create(...)
-                from deap import creator
-                k = len(self.indclasses)
-                creator.create("FitC08c_%d" % k, self.base.Fitness, weights=tuple(float(x) for x in w))
-                creator.create("IndC08c_%d" % k, list, fitness=getattr(creator, "FitC08c_%d" % k))
-                self.indclasses[key] = getattr(creator, "IndC08c_%d" % k)
-            else:
-                F = self.fitcls(w)
+    # ---- individual / fitness classes ------------------------------------------------------
+    def make_pool(self, weights, n, cls="plain", fitbase="Fitness", glen=1):
+        """n fresh individuals of one class. cls: plain | creator | array_d | array_i | numpy | numpy32."""
+        key = (tuple(weights), cls, fitbase)
+        if key not in self.classes:
+            import array
+            import numpy
+            from deap import creator
+            k = len(self.classes)
+            fb = getattr(self.base, fitbase)
+            w = tuple(float(x) for x in weights)
+            if cls == "plain":
+                F = type("FitC08_%d" % k, (fb,), {"weights": w})
 
                 class Ind(list):
                     def __init__(self, *a):
                         list.__init__(self, *a)
                         self.fitness = F()
-                Ind.__name__ = Ind.__qualname__ = "IndC08_%d" % len(self.indclasses)
-                self.indclasses[key] = Ind
-        return self.indclasses[key]()
+                Ind.__name__ = Ind.__qualname__ = "IndC08_%d" % k
+                self.classes[key] = (Ind, F)
+            else:
+                creator.create("FitC08c_%d" % k, fb, weights=w)
+                F = getattr(creator, "FitC08c_%d" % k)
+                if cls == "creator":
+                    creator.create("IndC08c_%d" % k, list, fitness=F)
+                elif cls in ("array_d", "array_i"):
+                    creator.create("IndC08c_%d" % k, array.array, typecode=cls[-1], fitness=F)
+                else:
+                    creator.create("IndC08c_%d" % k, numpy.ndarray, fitness=F)
+                self.classes[key] = (getattr(creator, "IndC08c_%d" % k), F)
+        Ind, F = self.classes[key]
+        if cls in ("numpy", "numpy32"):
+            import numpy
+            dt = numpy.float32 if cls == "numpy32" else numpy.int64
+            return [Ind(numpy.zeros(glen, dtype=dt)) for _ in range(n)], Ind, F
+        return [Ind() for _ in range(n)], Ind, F
 
     @staticmethod
-    def to_int(x):
-        y = int(x)
-        if y != x:
-            raise ValueError("non-integer weighted value %r" % (x,))
-        return y
+    def set_geno(p, g, cls):
+        if cls in ("array_d", "array_i"):
+            del p[:]
+            p.extend(g)
+        else:
+            p[:] = list(g)              # numpy: fixed length, a single value is broadcast
 
-    def read(self, arch, pool_ids, idmap, alive):
-        """(keys as int tuples, items as (canonical id, geno, wvalues))."""
-        ks = [[self.to_int(v) for v in k.wvalues] for k in arch.keys]
+    def read(self, arch, pool_ids, idmap, alive, to_int, foreign=()):
+        """(keys as rank tuples, items as (canonical id, geno, ranks))."""
+        ks = [[to_int(v) for v in k.wvalues] for k in arch.keys]
         its = []
         for it in arch.items:
             i = id(it)
             if i in pool_ids:
                 c = -1 - pool_ids[i]              # an archive member IS a submitted object
+            elif i in foreign:
+                c = -1000                         # ... or a member of another archive
             else:
                 if i not in idmap:
                     idmap[i] = len(idmap)
                     alive.append(it)              # keep alive: ids are never reused
                 c = idmap[i]
-            its.append((c, [int(g) for g in it], [self.to_int(v) for v in it.fitness.wvalues]))
+            its.append((c, [int(g) for g in it], [to_int(v) for v in it.fitness.wvalues]))
         return ks, its
 
-    def drive(self, kind, m, simk, weights, universe, script, group, use_creator=False):
+    @staticmethod
+    def make_rank(universe, weights):
+        """Order-isomorphic image in Z of every weighted value that can occur in the case:
+        (to_int on floats, weighted-fitness function for the oracle, garbage values)."""
+        wf = [float(w) for w in weights]
+        big = 2.0 * max([abs(float(v)) for _, vals in universe for v in vals] + [1.0]) + 1000.0
+        garbage = [tuple(big * s * (1 if w > 0 else -1) for w in wf) for s in (1, -1)]
+        allw = set()
+        for _, vals in list(universe) + [(None, g) for g in garbage]:
+            for v, w in zip(vals, wf):
+                allw.add(float(v * w))
+        order = sorted(allw)
+        rank = {x: k for k, x in enumerate(order)}
+
+        def to_int(x):
+            return rank[float(x)]             # KeyError: the implementation produced an unknown weighted value
+
+        def wfit(vals):
+            return tuple(rank[float(v * w)] for v, w in zip(vals, wf))
+        integral = all(float(x).is_integer() for x in order)
+        return to_int, wfit, garbage, integral
+
+    def impl_similar(self, simk, cls):
+        f = sim_impl(simk)
+        if f is None and cls in ("numpy", "numpy32"):
+            import numpy
+            return numpy.array_equal          # operator.eq is ambiguous on arrays (documented)
+        return f
+
+    # ---- one archive ---------------------------------------------------------------------------
+    def drive(self, kind, m, simk, weights, universe, script, group, use_creator=False, opts=None):
         """kind: 'hof' | 'pf'; universe: list of (geno, values); script: list of ops
-        ('update', [(slot, content)...]) | ('insert', (slot, content)) | ('remove', i) | ('clear',).
-        Returns (term, case)."""
+        ('update', [(slot, content)...][, ptype]) | ('insert', (slot, content)) | ('remove', i) | ('clear',)
+        | ('setmax', m) | ('setsim', simk).   Returns (term, heap_term_or_None, case)."""
         run, tools = self.run, self.tools
-        simf = sim_impl(simk)
+        opts = dict(opts or {})
+        cls = opts.get("cls", "creator" if use_creator else "plain")
+        fitbase = opts.get("fitbase", "Fitness")
+        simf = self.impl_similar(simk, cls)
         if kind == "hof":
-            arch = tools.HallOfFame(m) if simf is None else tools.HallOfFame(m, similar=simf)
+            if simf is None:
+                arch = tools.HallOfFame(m)
+            elif opts.get("ctor") == "pos":
+                arch = tools.HallOfFame(m, simf)
+            else:
+                arch = tools.HallOfFame(m, similar=simf)
         else:
-            arch = tools.ParetoFront() if simf is None else tools.ParetoFront(similar=simf)
+            if simf is None:
+                arch = tools.ParetoFront()
+            elif opts.get("ctor") == "pos":
+                arch = tools.ParetoFront(simf)
+            else:
+                arch = tools.ParetoFront(similar=simf)
         nslots = 1 + max([s for o in script if o[0] == "update" for (s, _) in o[1]] +
                          [o[1][0] for o in script if o[0] == "insert"] + [0])
-        pool = [self.new_ind(weights, use_creator) for _ in range(nslots)]
+        glen = len(universe[0][0])
+        pool, IndC, FitC = self.make_pool(weights, nslots, cls, fitbase, glen)
         pool_ids = {id(p): k for k, p in enumerate(pool)}
         pool_fit_ids = {id(p.fitness) for p in pool}
         idmap, alive = {}, []
         spec = sim_spec(simk)
-        wfit = lambda vals: tuple(int(v * w) for v, w in zip(vals, weights))
-        seen = []                 # snapshots (geno tuple, weighted fitness) of everything shown since the last clear
-        pure = True               # only update/clear so far -> the full statement applies
-        ops_terms, obs_terms, obs_log = [], [], []
+        to_int, wfit, garbage_vals, integral = self.make_rank(universe, weights)
+        if not integral:
+            self.stats["non_integer_fitness_cases"] += 1
+        seen = []                 # snapshots (geno tuple, weighted fitness ranks) the statement is judged against
+        shown_sig = {}            # snapshot -> set of (gene type names, repr(fitness.values)) as submitted
+        pure = True               # the full statement applies (see "restart" below)
+        segments = [[copt(m if kind == "hof" else None, cz), simk, []]]
+        ops_terms = segments[0][2]
+        obs_terms, obs_log = [], []
         hops, hobs = [], []       # heap-level history: every in-place overwrite and every call
         event = 0
         garbage = 0
+        reconfigured = False
         case = {"kind": kind, "maxsize": m, "similar": simk, "weights": list(weights),
-                "universe": [[list(g), list(v)] for g, v in universe], "script": [list(o) for o in script], "group": group,
-                "creator_classes": bool(use_creator)}
+                "universe": [[list(g), [repr(x) for x in v]] for g, v in universe], "script": [list(o) for o in script],
+                "group": group, "classes": [cls, fitbase, opts.get("ctor", "kw")]}
         viol = []
+        expected = {}             # slot -> contents the harness last wrote (update must not modify them)
+
+        def contents(p):
+            return ([int(g) for g in p], repr(tuple(p.fitness.values)))
 
         def note_hset(slot):
             p = pool[slot]
             hops.append("(HSet %s (mkobj %s %s))" % (cnat(slot), czl([int(g) for g in p]),
-                                                    czl([self.to_int(v) for v in p.fitness.wvalues])))
+                                                    czl([to_int(v) for v in p.fitness.wvalues])))
             hobs.append("None")
+            expected[slot] = contents(p)
+
+        for k in range(nslots):   # the initial objects (numpy individuals are not empty)
+            if len(pool[k]):
+                note_hset(k)
 
         def set_content(slot, ci):
             g, v = universe[ci]
-            pool[slot][:] = list(g)
-            pool[slot].fitness.values = tuple(float(x) for x in v)
+            self.set_geno(pool[slot], g, cls)
+            pool[slot].fitness.values = tuple(v)          # ints / floats / numpy scalars as given
             note_hset(slot)
 
         def scramble():
             nonlocal garbage
             for k, p in enumerate(pool):
                 garbage += 1
-                p[:] = [-7 - garbage % 3]
-                sign = 1 if garbage % 2 else -1
-                p.fitness.values = tuple(float(sign * 1000 * (1 if w > 0 else -1)) for w in weights)
+                self.set_geno(p, [-7 - garbage % 3], cls)
+                p.fitness.values = garbage_vals[garbage % 2]
                 note_hset(k)
+
+        def members_now():
+            return [(tuple(int(g) for g in it), tuple(to_int(v) for v in it.fitness.wvalues)) for it in arch.items]
+
+        def restart(ok):
+            """After a direct insert/remove or a reconfiguration: if the archive is a legal starting point
+            (C08_hof_continue / C08_pf_continue) the statement is judged from here on with seen = members."""
+            nonlocal seen, pure
+            if ok:                      # the continue-theorems only need a legal archive, whatever came before
+                seen = members_now()
+                pure = True
+                self.stats["oracle_restarts_after_direct_op"] += 1
+            else:
+                pure = False
+
+        def legal_start():
+            A = members_now()
+            n = len(A)
+            if simk not in EQUIV:
+                return False
+            if kind == "hof":
+                return (m is not None and m >= 1 and n <= m and
+                        not any(i != j and spec(A[i][0], A[j][0]) for i in range(n) for j in range(n)))
+            return not any(i != j and (dom_spec(A[i][1], A[j][1]) or (A[i][1] == A[j][1] and spec(A[i][0], A[j][0])))
+                           for i in range(n) for j in range(n))
 
         raised = False
         prev_ids = []
         for o in script:
+            batch_obj = None
             if o[0] == "update":
+                ptype = o[2] if len(o) > 2 else "list"
                 for (slot, ci) in o[1]:
                     set_content(slot, ci)      # in-place modification of a (re-)submitted object
                 batch = [pool[slot] for (slot, _) in o[1]]
@@ -168,7 +265,7 @@ class Driver:
                     p = pool[slot]
                     # contents as the implementation sees them at submission time (a slot listed twice
                     # with different contents holds the last one: same object)
-                    elems.append((event, [int(g) for g in p], [self.to_int(v) for v in p.fitness.wvalues]))
+                    elems.append((event, [int(g) for g in p], [to_int(v) for v in p.fitness.wvalues]))
                     event += 1
                 ops_terms.append("(OUpdate %s)" % clist([cind(*e) for e in elems]))
                 hops.append("(HUpdate %s)" % clist([cnat(slot) for (slot, _) in o[1]]))
@@ -181,34 +278,63 @@ class Driver:
                     if any(spec(snap[0], t[0]) and t[1] != snap[1] for t in seen):
                         self.stats["similar_resubmitted_with_other_fitness"] += 1
                     seen.append(snap)
+                    p = pool[slot]
+                    shown_sig.setdefault(snap, set()).add((tuple(type(x).__name__ for x in p), repr(tuple(p.fitness.values))))
+                batch_obj = {"list": batch, "tuple": tuple(batch), "iter": iter(batch)}[ptype]
                 try:
-                    arch.update(batch)
+                    arch.update(batch_obj)
                 except Exception as e:      # noqa
                     raised = type(e).__name__
             elif o[0] == "insert":
                 slot, ci = o[1]
                 set_content(slot, ci)
                 p = pool[slot]
-                ops_terms.append("(OInsert %s)" % cind(event, [int(g) for g in p], [self.to_int(v) for v in p.fitness.wvalues]))
+                ops_terms.append("(OInsert %s)" % cind(event, [int(g) for g in p], [to_int(v) for v in p.fitness.wvalues]))
                 event += 1
-                pure = False
                 hops.append("(HInsert %s)" % cnat(slot))
+                snap = (tuple(universe[ci][0]), wfit(universe[ci][1]))
+                shown_sig.setdefault(snap, set()).add((tuple(type(x).__name__ for x in p), repr(tuple(p.fitness.values))))
                 try:
                     arch.insert(p)
                 except Exception as e:      # noqa
                     raised = type(e).__name__
             elif o[0] == "remove":
-                ops_terms.append("(ORemove %s)" % cz(o[1]))
-                hops.append("(HRemove %s)" % cz(o[1]))
-                pure = False
+                idx = o[1]
+                if isinstance(idx, str):               # boundary indices relative to the current size
+                    n_ = len(arch.items)
+                    idx = {"first": 0, "last": n_ - 1, "neg_last": -1, "neg_first": -n_, "past": n_, "neg_past": -n_ - 1}[idx]
+                ops_terms.append("(ORemove %s)" % cz(idx))
+                hops.append("(HRemove %s)" % cz(idx))
                 try:
-                    arch.remove(o[1])
+                    arch.remove(idx)
                 except Exception as e:      # noqa
                     raised = type(e).__name__
+            elif o[0] == "setmax":
+                m = o[1]
+                arch.maxsize = m                               # reconfigured through attribute assignment
+                segments.append([copt(m, cz), simk, []])
+                ops_terms = segments[-1][2]
+                reconfigured = True
+                self.stats["reconfigurations"] += 1
+                restart(legal_start())
+                continue
+            elif o[0] == "setsim":
+                simk = o[1]
+                spec = sim_spec(simk)
+                f = self.impl_similar(simk, cls)
+                arch.similar = operator.eq if f is None else f
+                segments.append([copt(m if kind == "hof" else None, cz), simk, []])
+                ops_terms = segments[-1][2]
+                reconfigured = True
+                self.stats["reconfigurations"] += 1
+                restart(legal_start())
+                continue
             else:
                 ops_terms.append("OClear")
                 hops.append("HClear")
                 seen = []
+                if simk in EQUIV and (kind == "pf" or (m is not None and m >= 1)):
+                    pure = True                                 # an empty archive is always a legal start
                 try:
                     arch.clear()
                 except Exception as e:      # noqa
@@ -218,24 +344,38 @@ class Driver:
                 obs_terms.append("None")
                 hobs.append("(Some None)")
                 obs_log.append("raise " + raised)
-                if pure and (kind == "pf" or m >= 1):
-                    viol.append(("update raised %s" % raised, None))
+                if pure and o[0] in ("update", "clear") and (kind == "pf" or m >= 1):
+                    viol.append(("%s raised %s" % (o[0], raised), None))
                 break
             try:
-                ks, its = self.read(arch, pool_ids, idmap, alive)
+                # the call must not have modified what was submitted
+                touched = [k for k in range(nslots) if k in expected and contents(pool[k]) != expected[k]]
+                if o[0] == "update" and isinstance(batch_obj, list) and [id(x) for x in batch_obj] != [id(x) for x in batch]:
+                    touched.append("population list")
+                ks, its = self.read(arch, pool_ids, idmap, alive, to_int)
                 before = (ks, its)
                 cstate = lambda st: "(Some (Some (%s, %s)))" % (clist([czl(k) for k in st[0]]), clist([cind(*t) for t in st[1]]))
                 hobs.append(cstate(before))
+                # members keep the class, the gene types and the exact fitness values of what was shown
+                sig_bad = [k for k, it in enumerate(arch.items)
+                           if type(it) is not IndC or type(it.fitness) is not FitC or
+                           (tuple(type(x).__name__ for x in it), repr(tuple(it.fitness.values)))
+                           not in shown_sig.get((tuple(its[k][1]), tuple(its[k][2])), ())]
                 scramble()
-                after = self.read(arch, pool_ids, idmap, alive)
+                after = self.read(arch, pool_ids, idmap, alive, to_int)
                 hobs[-1] = cstate(after)       # observation after the last in-place overwrite
                 fit_alias = [k for k, it in enumerate(arch.items) if id(it.fitness) in pool_fit_ids]
                 key_alias = [k for k, kk in enumerate(arch.keys) if id(kk) in pool_fit_ids]
                 # the public list-like interface shows the same members
                 n = len(arch)
+                a_, b_ = (garbage % 4) - 1, (garbage % 3) + 1
                 iface_ok = (n == len(arch.items) and [id(x) for x in arch] == [id(x) for x in arch.items]
                             and [id(arch[k]) for k in range(n)] == [id(x) for x in arch.items]
+                            and [id(arch[k - n]) for k in range(n)] == [id(x) for x in arch.items]
                             and [id(x) for x in reversed(arch)] == [id(x) for x in reversed(arch.items)]
+                            and [id(x) for x in arch[a_:b_]] == [id(x) for x in arch.items[a_:b_]]
+                            and [id(x) for x in arch[::-1]] == [id(x) for x in arch.items[::-1]]
+                            and str(arch) == str(arch.items)
                             and (n == 0 or arch[-1] is arch.items[-1]))
             except Exception as e:          # noqa  (e.g. archive left holding invalid fitnesses)
                 viol.append(("archive unreadable after the operation: %s" % type(e).__name__, None))
@@ -257,8 +397,12 @@ class Driver:
                         self.stats["pf_removed_noncontiguous"] += 1
             prev_ids = ids_now
             # ---------------- oracle: the property statement on the implementation ----------------
+            if touched:
+                viol.append(("the call modified the submitted individuals / population", touched))
+            if sig_bad:
+                viol.append(("a member differs in class, gene type or exact fitness values from what was shown", [its[k] for k in sig_bad]))
             if not iface_ok:
-                viol.append(("len / iteration / indexing / reversed disagree with the item list", its))
+                viol.append(("len / iteration / indexing / slicing / reversed / str disagree with the item list", its))
             if after != before:
                 viol.append(("archive changed when the submitted individuals were modified in place", [before, after]))
             if any(c < 0 for (c, _, _) in its) or fit_alias or key_alias:
@@ -268,6 +412,8 @@ class Driver:
                 viol.append(("keys are not the mirror image of the items' fitnesses", [ks, its]))
             if any(A[i][1] < A[i + 1][1] for i in range(len(A) - 1)):
                 viol.append(("items not in non-increasing lexicographic fitness order", its))
+            if o[0] in ("insert", "remove"):
+                restart(legal_start())
             if pure:
                 viol += self.oracle(kind, m, simk, spec, seen, A)
         if len(set(len(f) for (_, f) in seen)) > 1:
@@ -277,11 +423,126 @@ class Driver:
         run.note_case(case, nontrivial, sample=case if (len(run.samples) < 6 and len(script) >= 2 and run.evaluations % 211 == 7) else None)
         for (what, obs) in viol[:3]:
             run.oracle_violation("%s: %s" % ("HallOfFame" if kind == "hof" else "ParetoFront", what), case, observed=obs)
-        kterm = copt(m if kind == "hof" else None, cz)
-        term = "CArch %s %s %s %s" % (kterm, simk, clist(ops_terms), clist(obs_terms))
+        if reconfigured:
+            segs = clist(["(%s, %s, %s)" % (k, sk, clist(ops)) for (k, sk, ops) in segments])
+            return "CSeq %s %s" % (segs, clist(obs_terms)), None, case
+        kterm = segments[0][0]
+        term = "CArch %s %s %s %s" % (kterm, segments[0][1], clist(ops_terms), clist(obs_terms))
         assert len(hops) == len(hobs), (len(hops), len(hobs))
-        hterm = "CHeap %s %s %s %s %s" % (kterm, simk, cnat(nslots), clist(hops), clist(hobs))
+        hterm = "CHeap %s %s %s %s %s" % (kterm, segments[0][1], cnat(nslots), clist(hops), clist(hobs))
         return term, hterm, case
+
+    # ---- two archives fed from the same objects and from each other --------------------------------
+    def drive_pair(self, cfgs, simk, weights, universe, script, group):
+        """cfgs: two (kind, m); script ops ('update', which, [(slot, content)...]) | ('feed', src, dst, mode)
+        with mode 'archive' (dst.update(src)), 'items' (dst.update(src.items)), 'reversed' (list(reversed(src)))
+        | ('clear', which).  src may equal dst.  Returns ([termA, termB], case)."""
+        run, tools = self.run, self.tools
+        simf = sim_impl(simk)
+        archs = []
+        for (kind, m) in cfgs:
+            if kind == "hof":
+                archs.append(tools.HallOfFame(m) if simf is None else tools.HallOfFame(m, similar=simf))
+            else:
+                archs.append(tools.ParetoFront() if simf is None else tools.ParetoFront(similar=simf))
+        nslots = 1 + max([s for o in script if o[0] == "update" for (s, _) in o[2]] + [0])
+        pool, IndC, FitC = self.make_pool(weights, nslots)
+        pool_ids = {id(p): k for k, p in enumerate(pool)}
+        to_int, wfit, garbage_vals, _ = self.make_rank(universe, weights)
+        spec = sim_spec(simk)
+        idmaps, alive = [{}, {}], []
+        seens = [[], []]
+        ops_terms, obs_terms = [[], []], [[], []]
+        obs_log = []
+        event = 0
+        garbage = 0
+        viol = []
+        case = {"kind": "pair", "archives": [list(c) for c in cfgs], "similar": simk, "weights": list(weights),
+                "universe": [[list(g), [repr(x) for x in v]] for g, v in universe], "script": [list(o) for o in script], "group": group}
+        dead = False
+        for o in script:
+            target = None
+            try:
+                if o[0] == "update":
+                    target = o[1]
+                    cur = {}
+                    for (slot, ci) in o[2]:
+                        g, v = universe[ci]
+                        pool[slot][:] = list(g)
+                        pool[slot].fitness.values = tuple(v)
+                        cur[slot] = ci
+                    elems = []
+                    for (slot, _) in o[2]:
+                        p = pool[slot]
+                        elems.append((event, [int(g) for g in p], [to_int(v) for v in p.fitness.wvalues]))
+                        event += 1
+                        g, v = universe[cur[slot]]
+                        seens[target].append((tuple(g), wfit(v)))
+                    ops_terms[target].append("(OUpdate %s)" % clist([cind(*e) for e in elems]))
+                    archs[target].update([pool[slot] for (slot, _) in o[2]])
+                elif o[0] == "feed":
+                    src, target, mode = o[1], o[2], o[3]
+                    self.stats["feeds_between_archives"] += 1
+                    members = list(archs[src].items)
+                    if mode == "reversed":
+                        members = members[::-1]
+                    elems = []
+                    for it in members:
+                        elems.append((event, [int(g) for g in it], [to_int(v) for v in it.fitness.wvalues]))
+                        event += 1
+                        seens[target].append((tuple(int(g) for g in it), tuple(to_int(v) for v in it.fitness.wvalues)))
+                    ops_terms[target].append("(OUpdate %s)" % clist([cind(*e) for e in elems]))
+                    popn = {"archive": archs[src], "items": archs[src].items, "reversed": list(reversed(archs[src]))}[mode]
+                    archs[target].update(popn)
+                else:
+                    target = o[1]
+                    ops_terms[target].append("OClear")
+                    seens[target] = []
+                    archs[target].clear()
+            except Exception as e:      # noqa
+                viol.append(("%s raised %s" % (o[0], type(e).__name__), None))
+                if target is not None:
+                    obs_terms[target].append("None")
+                dead = True
+                break
+            # read BOTH archives: an operation on one must not disturb the other
+            states = []
+            for w in (0, 1):
+                foreign = {id(x) for x in archs[1 - w].items}
+                states.append(self.read(archs[w], pool_ids, idmaps[w], alive, to_int, foreign))
+            for p in pool:
+                garbage += 1
+                p[:] = [-7 - garbage % 3]
+                p.fitness.values = garbage_vals[garbage % 2]
+            for w in (0, 1):
+                foreign = {id(x) for x in archs[1 - w].items}
+                again = self.read(archs[w], pool_ids, idmaps[w], alive, to_int, foreign)
+                ks, its = states[w]
+                if again != states[w]:
+                    viol.append(("archive %d changed when the submitted individuals were modified in place" % w, [states[w], again]))
+                if any(c < 0 for (c, _, _) in its):
+                    viol.append(("archive %d holds a submitted object or a member of the other archive instead of a deep copy" % w, its))
+                A = [(tuple(g), tuple(f)) for (_, g, f) in its]
+                if [tuple(k) for k in ks] != [f for (_, f) in reversed(A)]:
+                    viol.append(("archive %d: keys are not the mirror image of the items' fitnesses" % w, [ks, its]))
+                if any(A[i][1] < A[i + 1][1] for i in range(len(A) - 1)):
+                    viol.append(("archive %d: items not in non-increasing lexicographic fitness order" % w, its))
+                viol += [("archive %d: %s" % (w, what), obs)
+                         for (what, obs) in self.oracle(cfgs[w][0], cfgs[w][1], simk, spec, seens[w], A)]
+                if w != target and len(obs_log) and obs_log[-1][w] != [ks, its]:
+                    viol.append(("archive %d changed although the operation was on the other archive" % w, [obs_log[-1][w], [ks, its]]))
+            obs_terms[target].append("(Some (%s, %s))" % (clist([czl(k) for k in states[target][0]]),
+                                                       clist([cind(*t) for t in states[target][1]])))
+            obs_log.append([[list(states[0][0]), list(states[0][1])], [list(states[1][0]), list(states[1][1])]])
+        case["observed"] = obs_log
+        run.note_case(case, True)
+        for (what, obs) in viol[:3]:
+            run.oracle_violation("two archives: %s" % what, case, observed=obs)
+        terms = []
+        for w in (0, 1):
+            kterm = copt(cfgs[w][1] if cfgs[w][0] == "hof" else None, cz)
+            terms.append("CArch %s %s %s %s" % (kterm, simk, clist(ops_terms[w]), clist(obs_terms[w])))
+        return terms, case
 
     @staticmethod
     def oracle(kind, m, simk, spec, seen, A):
@@ -505,7 +766,8 @@ def main(run):
             if api and r < 0.2:
                 script.append(("insert", (rng.randrange(nslots), rng.randrange(nuni))))
             elif api and r < 0.45:
-                script.append(("remove", rng.choice([-1, -1, 0, 0, 1, 2, -2, -3, 3, 5, -6, 7])))
+                script.append(("remove", rng.choice([-1, -1, 0, 0, 1, 2, -2, -3, 3, 5, -6, 7,
+                                                     "first", "last", "neg_first", "past", "neg_past"])))
             elif (api and r < 0.5) or (not api and r < 0.03):
                 script.append(("clear",))
             else:
@@ -525,10 +787,24 @@ def main(run):
         script = rand_script(len(uni), nslots, rng.randint(1, 14), 7, api=False)
         return kind, m, simk, weights, uni, script
 
+    def rand_opts(simk):
+        cls = rng.choice(["plain"] * 4 + ["creator"] * 3 + ["array_d", "array_i", "numpy", "numpy32"])
+        return {"cls": cls, "fitbase": rng.choice(["Fitness"] * 3 + ["ConstrainedFitness"]),
+                "ctor": rng.choice(["kw", "pos"])}
+
+    def with_ptypes(kind, script):
+        out = []
+        for o in script:
+            if o[0] == "update" and rng.random() < 0.4:
+                out.append(("update", o[1], rng.choice(["tuple", "iter"] if kind == "pf" else ["tuple"])))
+            else:
+                out.append(o)
+        return out
+
     nrand = run.scale(1000, 15000)
     for it in range(nrand):
         kind, m, simk, weights, uni, script = rand_case()
-        term, hterm, case = D.drive(kind, m, simk, weights, uni, script, "rand", use_creator=rng.random() < 0.3)
+        term, hterm, case = D.drive(kind, m, simk, weights, uni, with_ptypes(kind, script), "rand", opts=rand_opts(simk))
         add("rand", term, case)
         add("rand_heap", hterm, case)
 
@@ -631,6 +907,120 @@ def main(run):
         term, hterm, case = D.drive(kind, rng.randint(2, 6), "SimEq", weights, uni, script, "noncontig")
         add("noncontig", term, case)
         add("noncontig_heap", hterm, case)
+
+    # ---------------- hardening round: value domains (class 3) ----------------
+    import math
+    import numpy
+
+    def value_pool(domain):
+        if domain == "ulp":
+            b = rng.choice([1.0, 0.1, 1e9, 1e-9, -3.5, 1e100])
+            vals = [b]
+            for _ in range(rng.randint(2, 5)):
+                vals.append(math.nextafter(vals[-1], math.inf))
+            return vals
+        if domain == "offset":
+            return [1e9 + j * 1e-3 for j in range(-2, 4)]
+        if domain == "tiny":
+            return [j * 1e-9 for j in range(-2, 4)] + [5e-324, -5e-324]
+        if domain == "huge":
+            b = rng.choice([2 ** 53, 2 ** 60, -2 ** 53, 2 ** 100])
+            return [b + j for j in (-2, -1, 0, 1, 2, 3)]          # Python ints: several collapse as floats
+        if domain == "zero":
+            return [0, 0.0, -0.0, 1, -1, 1e-320]
+        if domain == "mixed":
+            # types that compare exactly with each other (no float32 here: under numpy's promotion rules
+            # np.float32(0.1) == 0.1 although float(np.float32(0.1)) > 0.1, i.e. not a total order)
+            return [1, 1.0, numpy.float64(1.0), numpy.int64(1), True, 2, numpy.float64(2.5), 2.5, 0.1, numpy.int64(3)]
+        if domain == "f32":
+            b = numpy.float32(rng.choice([0.1, 1.0, 2.5, 1e6]))
+            vals = [b]
+            for _ in range(rng.randint(2, 4)):
+                vals.append(numpy.nextafter(vals[-1], numpy.float32(numpy.inf)))
+            return vals                                         # one objective = one dtype
+        raise KeyError(domain)
+
+    for it in range(run.scale(400, 6000)):
+        nobj = rng.choice([1, 1, 2, 2, 3])
+        domain = rng.choice(["ulp", "ulp", "offset", "tiny", "huge", "zero", "mixed", "mixed", "f32"])
+        pools = [value_pool(domain) for _ in range(nobj)]
+        weights = tuple(rng.choice([1.0, -1.0, 0.5, -3.0, 1e-3, -1e3, 2.0, -1.0, 1.0]) for _ in range(nobj))
+        simk = rng.choice(["SimEq", "SimEq", "SimHead"])
+        k = rng.randint(3, 8)
+        uni, cls_fit = [], {}
+        for j in range(k):
+            g = [rng.randint(0, 3), rng.randint(0, 1)]
+            c = tuple(g) if simk == "SimEq" else g[0]
+            if c not in cls_fit or rng.random() < 0.15:
+                cls_fit[c] = tuple(rng.choice(pools[o]) for o in range(nobj))
+            uni.append((g, cls_fit[c]))
+        kind = "hof" if rng.random() < 0.5 else "pf"
+        script = rand_script(len(uni), rng.randint(1, 4), rng.randint(1, 10), 5, api=False)
+        term, hterm, case = D.drive(kind, rng.choice([1, 2, 2, 3, 4]), simk, weights, uni, with_ptypes(kind, script), "vals",
+                                    opts={"cls": rng.choice(["plain", "creator", "array_d", "numpy"]),
+                                          "fitbase": rng.choice(["Fitness", "Fitness", "ConstrainedFitness"])})
+        add("vals", term, case)
+        add("vals_heap", hterm, case)
+
+    # ---------------- hardening round: one archive object over long call sequences (class 1) ----------------
+    # update -> clear / remove / insert / archive.maxsize = k / archive.similar = f -> update again ...
+    for it in range(run.scale(400, 6000)):
+        kind = "hof" if rng.random() < 0.6 else "pf"
+        nobj = rng.choice([1, 2, 2, 3])
+        weights = tuple(rng.choice([1, -1]) for _ in range(nobj))
+        simk = rng.choice(["SimEq", "SimHead"])
+        k = rng.randint(3, 8)
+        hi = rng.choice([1, 2, 3])
+        uni, fit_of = [], {}
+        for j in range(k):
+            g = [rng.randint(0, 2), rng.randint(0, 2)]
+            c = tuple(g) if rng.random() < 0.6 else g[0]      # mostly a function of the whole genotype
+            if c not in fit_of:
+                fit_of[c] = tuple(rng.randint(0, hi) for _ in range(nobj))
+            uni.append((g, fit_of[c]))
+        nslots = rng.randint(1, 4)
+        reconf = rng.random() < 0.6
+        script = []
+        for _ in range(rng.randint(3, 12)):
+            r = rng.random()
+            if r < 0.55:
+                script.append(("update", [(rng.randrange(nslots), rng.randrange(k)) for _ in range(rng.choice([0, 1, 2, 3, 5]))]))
+            elif r < 0.65:
+                script.append(("clear",))
+            elif r < 0.77:
+                script.append(("remove", rng.choice(["first", "last", "neg_last", "neg_first", "past", "neg_past", 1, -2])))
+            elif r < 0.82:
+                script.append(("insert", (rng.randrange(nslots), rng.randrange(k))))
+            elif reconf and kind == "hof" and r < 0.92:
+                script.append(("setmax", rng.choice([1, 2, 3, 4, 6, 0])))
+            elif reconf:
+                script.append(("setsim", rng.choice(["SimEq", "SimHead"])))
+        term, hterm, case = D.drive(kind, rng.choice([1, 2, 3, 4]), simk, weights, uni, script, "seq")
+        add("seq", term, case)
+        if hterm is not None:
+            add("seq_heap", hterm, case)
+
+    # ---------------- hardening round: two archives, same objects, fed from each other (classes 1, 2) ----------------
+    for it in range(run.scale(250, 4000)):
+        nobj = rng.choice([1, 2, 2, 3])
+        weights = tuple(rng.choice([1, -1]) for _ in range(nobj))
+        simk = rng.choice(["SimEq", "SimEq", "SimHead", "SimAlways"])
+        uni = rand_universe(nobj, simk, True)
+        cfgs = rng.choice([[("hof", rng.randint(1, 4)), ("pf", None)], [("hof", rng.randint(1, 3)), ("hof", rng.randint(2, 5))],
+                           [("pf", None), ("pf", None)], [("pf", None), ("hof", rng.randint(1, 4))]])
+        nslots = rng.randint(1, 4)
+        script = []
+        for _ in range(rng.randint(2, 10)):
+            r = rng.random()
+            if r < 0.6:
+                script.append(("update", rng.randrange(2), [(rng.randrange(nslots), rng.randrange(len(uni))) for _ in range(rng.choice([0, 1, 2, 3, 4]))]))
+            elif r < 0.92:
+                script.append(("feed", rng.randrange(2), rng.randrange(2), rng.choice(["archive", "items", "reversed"])))
+            else:
+                script.append(("clear", rng.randrange(2)))
+        terms, case = D.drive_pair(cfgs, simk, weights, uni, script, "pair")
+        for t in terms:
+            add("pair", t, case)
 
     # api: direct insert / remove / clear mixed with updates, and maxsize 0
     for it in range(run.scale(300, 5000)):
